@@ -22,6 +22,12 @@ func StdLeaves() []*Rx {
 		Cls(&Class{Neg: true, Items: []ClassItem{Ch('a')}}),
 		Cls(&Class{Items: []ClassItem{Range('a', 'c')}, Sub: &Class{Items: []ClassItem{Ch('b')}}}),
 		Dot(),
+		// items nested in / overlapping / adjacent to other items of the same class
+		Cls(&Class{Items: []ClassItem{Range('a', 'd'), Ch('b')}}),
+		Cls(&Class{Items: []ClassItem{Ch('c'), Range('a', 'b'), Range('b', 'd')}}),
+		// partial overlap with [a-c], and a literal that starts inside the intersection
+		Cls(&Class{Items: []ClassItem{Range('b', 'e')}}),
+		Lit("c"),
 	}
 }
 
